@@ -773,8 +773,9 @@ class Sim:
             for label, fn in self.app_events():
                 evs.append((w["app"], "app", (label, fn)))
         if self.chaos and self.fault_events is not None:
-            for label, fn in self.fault_events():
-                evs.append((w["fault"], "fault", (label, fn)))
+            for item in self.fault_events():
+                mult = item[2] if len(item) > 2 else 1
+                evs.append((w["fault"] * mult, "fault", (item[0], item[1])))
         if evs and self.allow_advance and r.calls and \
                 r.calls[0].getTime() > now and self.chaos:
             evs.append((w["advance"], "advance", None))
